@@ -246,3 +246,9 @@ Definition H_unit_b (c s : Q) : bool :=
 Definition H_radius_b (cr sr W H : Q) : bool :=
   Qle_bool (W / 2 * (1 - rho)) (sqrt2f * cr) && Qle_bool cr (W / 2)
   && Qle_bool (H / 2 * (1 - rho)) (sqrt2f * sr) && Qle_bool sr (H / 2).
+
+(* the repaired cloud fit of coq/C27/fix.patch: the inner box is selected by the UNPADDED content's aspect
+   ratio, as d2graph.SizeToContent / GetInnerBox do afterwards *)
+Definition fit_cloud_fixed (w h px py : Q) : Q * Q :=
+  let k := cloud_branch w h in
+  (ceilQ ((w + px) / cloud_iw k), ceilQ ((h + py) / cloud_ih k)).
